@@ -158,6 +158,46 @@ def random_traces(rng: random.Random, count: int, ftd: list, var: list):
         var.append(V.run(steps=steps, return_best=rng.random() < 0.6, script=vs, seed=2000 + i, table_size=12))
 
 
+def real_runs(rep: Report, rng: random.Random, count: int, ftd: list):
+    """Real flows trained with the library's own loss and real optimisers; the epoch whose parameters were returned is
+    identified by parameter digests, validation losses enter the trace as ranks."""
+    import jax.numpy as jnp
+    import jax.random as jr
+    import optax
+    from flowjax import distributions as ds
+    from flowjax import flows
+    S = observe.RealDataSession()
+    for i in range(count):
+        k = jr.PRNGKey(rng.randrange(2**31))
+        k1, k2, k3 = jr.split(k, 3)
+        cond = [None, 2][i % 2]
+        dim = 2
+        if i % 3 == 0:
+            flow = flows.masked_autoregressive_flow(k1, base_dist=ds.Normal(jnp.zeros(dim)), cond_dim=cond, flow_layers=2, nn_width=6)
+        elif i % 3 == 1:
+            flow = flows.coupling_flow(k1, base_dist=ds.Normal(jnp.zeros(dim)), cond_dim=cond, flow_layers=2, nn_width=6)
+        else:
+            flow = ds.Normal(jnp.zeros(dim), jnp.ones(dim)) if cond is None else \
+                flows.planar_flow(k1, base_dist=ds.Normal(jnp.zeros(dim)), cond_dim=cond, flow_layers=2, negative_slope=0.1, width_size=5, depth=1)
+        n = rng.choice([9, 14, 23, 31])
+        x = jr.normal(k2, (n, dim)) * 1.3 + 0.4
+        c = None if cond is None else jr.normal(k3, (n, cond))
+        kw = dict(max_epochs=rng.randrange(2, 8), patience=rng.randrange(0, 3), batch=rng.choice([3, 5, 50]),
+                  val_prop=rng.choice([0.2, 0.3, 0.5]), return_best=bool(i % 4), seed=3000 + i)
+        opt = [optax.adam(0.05), optax.sgd(0.05), optax.adam(0.3)][i % 3]      # the large rate makes the loss go up and down
+        try:
+            t, finite = S.run(dist=flow, x=x, condition=c, optimizer=opt, **kw)
+        except Exception as e:  # noqa: BLE001
+            rep.violation({"loop": "fit_to_data", "driver": "real training", "error": type(e).__name__},
+                          f"real training run raised {type(e).__name__}: {str(e)[:200]} ({kw})")
+            continue
+        if not finite:
+            rep.add("real_runs_skipped_nonfinite_loss")
+            continue
+        ftd.append(t)
+        rep.count(1, ("real", i, json.dumps(kw, sort_keys=True)))
+
+
 def main():
     ap = argparse.ArgumentParser()
     ap.add_argument("--replay")
@@ -190,6 +230,7 @@ def main():
     replay_fit_to_data(rep, fcases, rng, 1500 if thorough else 220, ftd_traces)
     replay_variational(rep, vcases, rng, 10_000, var_traces)
     random_traces(rng, 300 if thorough else 60, ftd_traces, var_traces)
+    real_runs(rep, rng, 40 if thorough else 8, ftd_traces)
     s1 = tracecheck.check(rep, "Trace_FitToData", "Trace_FitToData_I.cfg", ftd_traces, FTD_GUARDS, pid=PID)
     s2 = tracecheck.check(rep, "Trace_FitVariational", "Trace_FitVariational_I.cfg", var_traces, VAR_GUARDS, pid=PID)
     rep.set("traces_validated_against_impl", len(ftd_traces) + len(var_traces))
